@@ -27,8 +27,26 @@ def _mesa():
 _CLASSES = None
 
 
+class _Override:
+    """a per-instance replacement of the method `act` (strategy pattern: `agent.act = something`).  It holds the agent
+    weakly - an instance attribute referring back to its owner strongly would be a reference cycle, and the harness
+    relies on refcounting deaths"""
+
+    __slots__ = ("ref",)
+
+    def __init__(self, agent):
+        self.ref = weakref.ref(agent)
+
+    def __call__(self, arg, tag=None):
+        agent = self.ref()
+        return agent.model.world.callback(agent, arg, tag, via="instance")
+
+
 def classes():
-    """Model subclass + agent hierarchy  T0 <- T1 <- T3,  T2 apart (exact-class grouping must not merge them)"""
+    """Model subclass + agent hierarchy  T0 <- T1 <- T3,  T2 apart (exact-class grouping must not merge them).
+    Properties the correct code must not depend on: agents of class T2 are *falsy* (`__bool__`), those of T3 are empty
+    containers (`__len__` = 0); agents whose x is a multiple of 3 carry a per-instance `act`; `ping` is a staticmethod
+    and `census` a classmethod (activated by name next to `act`)."""
     global _CLASSES
     if _CLASSES is None:
         Model, Agent, AgentSet = _mesa()
@@ -42,18 +60,31 @@ def classes():
                 self.x = x
                 self.y = y
                 self.aid = model.world.new_aid(self)
+                if isinstance(x, int) and x % 3 == 0:
+                    self.act = _Override(self)
 
             def act(self, arg, tag=None):
-                return self.model.world.callback(self, arg, tag)
+                return self.model.world.callback(self, arg, tag, via="class")
+
+            @staticmethod
+            def ping(world, arg, tag=None):
+                world.named_calls.append(("ping", arg, tag))
+
+            @classmethod
+            def census(cls, world, arg, tag=None):
+                world.named_calls.append(("census", arg, tag, cls))
+                return cls
 
         class T1(T0):
             pass
 
         class T2(T0):
-            pass
+            def __bool__(self):
+                return False
 
         class T3(T1):
-            pass
+            def __len__(self):
+                return 0
 
         _CLASSES = (WModel, [T0, T1, T2, T3], AgentSet)
     return _CLASSES
@@ -104,6 +135,7 @@ class WorldImpl:
         self.models, self.wr, self.info = [], [], []
         self.held, self.sets, self.scripts = {}, [], {}
         self.log, self.trace = [], []
+        self.named_calls = []
         self.pending_hold = False
 
     # -- agents ---------------------------------------------------------------------------
@@ -118,6 +150,15 @@ class WorldImpl:
             self.held[aid] = agent
         tr.append(("create", aid, m, ty, agent.unique_id, self.pending_hold))
         return aid
+
+    def live_classes(self, aids):
+        res = []
+        for a in aids:
+            o = self.deref(a)
+            if o is not None:
+                res.append(type(o))
+            del o
+        return res
 
     def deref(self, aid):
         return self.wr[aid]() if aid < len(self.wr) else None
@@ -148,10 +189,13 @@ class WorldImpl:
         self.held.pop(aid, None)
 
     # -- callbacks ------------------------------------------------------------------------
-    def callback(self, agent, arg, tag=None):
+    def callback(self, agent, arg, tag=None, via=None):
         aid = agent.aid
         self.log.append((aid, arg))
         self.trace.append(("invoke", aid, arg, tag))
+        if via == "class" and "act" in agent.__dict__:
+            # the class-level method ran although this agent carries its own `act`: not `agent.act(...)`
+            self.trace.append(("bypassed", aid))
         for act in self.scripts.get(aid, ()):
             k = act[0]
             if k == "rmself":
@@ -338,6 +382,26 @@ class WorldImpl:
         self.trace.append(("call", k, w[1], before, rem, arg, key, [self.info[a][1:3] for a in before], kw.get("tag")))
         method = "act" if how == "str" else (lambda a, arg, tag=None: a.model.world.callback(a, arg, tag))
         res = ""
+        if how == "str" and k in ("do", "map") and (arg + len(before)) % 2:
+            # the same activation with a staticmethod / classmethod name first: `agent.ping(...)` / `agent.census(...)`
+            # once per member, arguments unchanged; they do nothing, so the real activation below starts from the same state
+            self.named_calls = []
+            classes_ = self.live_classes(before)  # (no walrus here: it would leave the last agent referenced by this frame)
+            try:
+                if k == "do":
+                    s.do("ping", self, *pa, **kw)
+                    got = None
+                else:
+                    got = s.map("census", self, *pa, **kw)
+                err = None
+            except Exception as e:  # noqa: BLE001
+                got, err = None, type(e).__name__
+            ix = self.CLS.index  # (class objects do not travel between the worker processes: indices)
+            self.trace.append(("named", "ping" if k == "do" else "census",
+                               [c[:3] + ((ix(c[3]),) if len(c) > 3 else ()) for c in self.named_calls],
+                               [ix(c) for c in classes_], None if got is None else [ix(c) for c in got], err, arg, kw.get("tag")))
+            self.named_calls = []
+            del classes_, got
         if k == "do":
             r = s.do(method, *pa, **kw)
             assert r is s
@@ -526,7 +590,7 @@ def exhaustive_activation(max_n, kinds, all_held_patterns, n4=False):
 
     def scen(n, combo, held, kind):
         lines = ["scenario world", "model 3,1,4,1,5,9,2,6"]
-        lines += [f"create 0 {i % 2} {h} 0" for i, h in enumerate(held)]
+        lines += [f"create 0 {[0, 2, 1, 3][i % 4]} {h} {i}" for i, h in enumerate(held)]  # T2, T3: falsy agents; x = 0, 3: own `act`
         lines += [f"script {i} {a}" for i, a in enumerate(combo) if a]
         lines.append(f"{kind} all:0 1 str" if not kind.startswith("g") else f"{kind} all:0 ty 1 str")
         return core.Scenario(lines, {"exhaustive": True})
@@ -772,6 +836,20 @@ def oracle_c04(sc, obs):
                     if aid in call["before"] and aid not in invoked:
                         bad.append(f"order: agent {aid} invoked out of the visiting order {call['visit']} by `{line}`")
                 invoked.append(aid)
+            elif k == "bypassed":
+                bad.append(f"callable: `{line}` ran the class-level method on agent {ev[1]}, which carries its own `act`: "
+                           f"the named method of each *agent* must be invoked")
+            elif k == "named" and call is not None:
+                _, name, calls, classes_, got, err, arg, tag = ev
+                want_n = len(classes_)
+                if err:
+                    bad.append(f"args: `{line}` by the {'staticmethod' if name == 'ping' else 'classmethod'} name `{name}` raised {err}: "
+                               f"agent.{name}(*args) was not called with the arguments passed through unchanged")
+                elif len(calls) != want_n or any(c[1] != arg or c[2] != tag for c in calls):
+                    bad.append(f"args: `{line}` by the name `{name}` made {len(calls)} calls {[(c[1], c[2]) for c in calls][:3]} "
+                               f"for {want_n} members (argument {arg}, tag {tag})")
+                elif name == "census" and (got != classes_ or [c[3] for c in calls] != classes_):
+                    bad.append(f"map: `{line}` by the classmethod name `census` did not return one result per member, in order")
             elif k == "return" and call is not None:
                 snap = (set(registered), set(held))
             elif k == "result":
